@@ -87,21 +87,23 @@ type c18Held struct {
 }
 
 type c18Env struct {
-	rt        *rapid.T
-	c         *vs.Case
-	w         *pdbWorld
-	cfg       Config
-	maxLayers int
-	dir       string
-	kv        *memorydb.Database
-	db        *Database
-	line      []common.Hash // canonical roots by state id; line[len-1] is the head
-	dead      []common.Hash // roots of rolled-back forks
-	held      []c18Held
-	trace     []string
-	forced    bool // the indexers are in the forced "initial indexing done" state
-	indexing  bool
-	stopped   bool // the scenario ended early (real initialiser still busy)
+	rt         *rapid.T
+	c          *vs.Case
+	st         *vs.S
+	w          *pdbWorld
+	cfg        Config
+	maxLayers  int
+	dir        string
+	kv         *memorydb.Database
+	db         *Database
+	line       []common.Hash // canonical roots by state id; line[len-1] is the head
+	dead       []common.Hash // roots of rolled-back forks
+	held       []c18Held
+	heldAcross []c18Held // readers that lived through a rollback (observation only)
+	trace      []string
+	forced     bool // the indexers are in the forced "initial indexing done" state
+	indexing   bool
+	stopped    bool // the scenario ended early (real initialiser still busy)
 
 	// statistics
 	reads, refused             int
@@ -294,7 +296,9 @@ func (e *c18Env) rollback() bool {
 	e.dead = append(e.dead, e.line[tgt+1:]...)
 	e.line = e.line[:tgt+1]
 	e.rolledBack = true
-	e.held = nil // readers held across a rollback are outside the statement (see notes/C18.md)
+	// readers held across a rollback are outside the statement: observed, not asserted (see notes/C18.md)
+	e.heldAcross = append(e.heldAcross, e.held...)
+	e.held = nil
 	e.trace = append(e.trace, fmt.Sprintf("rollback disk #%d -> #%d", disk, tgt))
 	return true
 }
@@ -356,6 +360,34 @@ func (e *c18Env) verifyState(hr *HistoricalStateReader, root common.Hash, what s
 			e.reads++
 		}
 	}
+}
+
+// softVerify is verifyState without assertions: it counts failed and wrong reads.
+func (e *c18Env) softVerify(hr *HistoricalStateReader, root common.Hash) (errs, wrong int, first string) {
+	st := e.w.State(root)
+	for _, a := range append([]pdbAddr{pdbSeqAddr}, pdbAddrs...) {
+		got, err := hr.AccountRLP(a.Addr)
+		if err != nil {
+			errs++
+		} else if want := st.AccountBlob(a.Hash); !c18Same(got, want) {
+			wrong++
+			if first == "" {
+				first = fmt.Sprintf("account %x at id %d: %x, model %x", a.Addr, hr.id, got, want)
+			}
+		}
+		for _, s := range pdbSlots {
+			got, err := hr.Storage(a.Addr, s.Key)
+			if err != nil {
+				errs++
+			} else if want := st.SlotBlob(a.Hash, s.Hash); !c18Same(got, want) {
+				wrong++
+				if first == "" {
+					first = fmt.Sprintf("slot %x/%x at id %d: %x, model %x", a.Addr, s.Key, hr.id, got, want)
+				}
+			}
+		}
+	}
+	return errs, wrong, first
 }
 
 // verifyNodes reads every reference trie node of root through the historical node reader.
@@ -554,6 +586,25 @@ func (e *c18Env) observe(when string) {
 		kept = append(kept, h)
 	}
 	e.held = kept
+	// observation only: readers that lived through a rollback
+	keptAcross := e.heldAcross[:0]
+	for _, h := range e.heldAcross {
+		if h.id >= len(e.line) || e.line[h.id] != h.root || h.id < int(st) || h.id >= disk {
+			continue
+		}
+		keptAcross = append(keptAcross, h)
+		errs, wrong, first := e.softVerify(h.hr, h.root)
+		switch {
+		case wrong > 0:
+			e.c.Class("observation:reader-held-across-rollback:wrong-value")
+			e.st.Note("observation (not asserted): a HistoricalStateReader opened before a rollback and used after the re-extension returned a wrong value without error: %s", first)
+		case errs > 0:
+			e.c.Class("observation:reader-held-across-rollback:errors")
+		default:
+			e.c.Class("observation:reader-held-across-rollback:exact")
+		}
+	}
+	e.heldAcross = keptAcross
 	e.c.Class("observe:indexed")
 }
 
@@ -588,7 +639,7 @@ func (e *c18Env) reopen(indexing, real bool, wait time.Duration) {
 		e.fail("Close failed: %v", err)
 	}
 	// a rollback made held readers' databases stale anyway; drop them on reopen
-	e.held = nil
+	e.held, e.heldAcross = nil, nil
 	e.open(indexing, !real)
 	if e.db.tree.get(head) == nil {
 		e.fail("reopen lost the journaled head %x", head)
@@ -691,7 +742,7 @@ func (e *c18Env) partialIndex() {
 
 func c18Scenario(rt *rapid.T, st *vs.S) {
 	c := st.Case()
-	e := &c18Env{rt: rt, c: c, w: newPdbWorld(), kv: memorydb.New()}
+	e := &c18Env{rt: rt, c: c, st: st, w: newPdbWorld(), kv: memorydb.New()}
 	e.maxLayers = rapid.SampledFrom([]int{1, 2, 2, 4, 8}).Draw(rt, "maxDiffLayers")
 	e.cfg = Config{
 		StateHistory:        rapid.SampledFrom([]uint64{0, 0, 3, 10, 25}).Draw(rt, "stateHistory"),
